@@ -30,3 +30,19 @@ Theorem C05_wait_if_received_refuted :
                             List.length (running (exstep StartUpToMax WaitStartsIfReceived e o)) < maxw e | _ => False end.
 Proof. exact wait_if_received_refuted. Qed.
 Print Assumptions C05_wait_if_received_refuted.
+
+(* ---- several runs in one interpreter: whatever an earlier run left behind, after every submit and every wait of a later run no
+   future is pending while one of *its* max_workers slots is free — given that each process runner builds an executor of its own
+   (read from the source; with a shared executor, or a shared table, slots of the later run are taken by work that is not its
+   own: C04_shared_executor_refuted shows the state). *)
+Require Import LT.Model.Scope LT.Proofs.ScopeProofs.
+Theorem C05_every_run_fills_its_own_slots : forall ops1 w1 e1 w2 ops2 e o,
+  In e1 (states start_policy_src wait_policy_src (init_ex w1) ops1) ->
+  In e (states start_policy_src wait_policy_src (second_run_start exec_scope_src e1 w2) ops2) ->
+  match o with
+  | XSubmit | XWait _ => pendq (exstep start_policy_src wait_policy_src e o) <> [] ->
+                         List.length (running (exstep start_policy_src wait_policy_src e o)) = w2
+  | _ => True
+  end.
+Proof. exact (second_run_rest_full start_policy_src wait_policy_src eq_refl eq_refl). Qed.
+Print Assumptions C05_every_run_fills_its_own_slots.
